@@ -268,7 +268,7 @@ def run(tier, seed):
             if v in reps:
                 continue
             lib = hl7apy.load_library(v)
-            for d, s in rng.sample(cases, 300 if tier == 'quick' else 3000):
+            for d, s in rng.sample(cases, min(len(cases), 300 if tier == 'quick' else 3000)):
                 if d in lib.BASE_DATATYPES:
                     jobs.append((v, d, s, rng.random() < .5))
     hl7apy.set_default_validation_level(2)
